@@ -208,6 +208,54 @@ def run(ctx, res):
                 res.ok("LOOP-LIVENESS", "process::exit only in the Action::Exit arm")
             else:
                 res.bad("LOOP-LIVENESS", "lsp::run_lsp # exit-outside-exit-arm", "process::exit is reachable outside the `exit` arm", rl.loc())
+    # ---- DOC-SYNC: with full-document sync the last entry of contentChanges is the document. The text stored for
+    # the document and the text checked for diagnostics must both be that entry's `text`.
+    dc = P.require_fn("lsp::handle_did_change")
+
+    def provenance(g, op, limit=30):
+        """callee short names on the way back from an operand through single-argument accessor calls and `?`."""
+        chain = []
+        r = g.root_of(op, through_named=True)
+        for _ in range(limit):
+            if r[0] == "place":
+                # payload of a `?` branch: Continue(x) of Try::branch(y)
+                l = r[1]["l"]
+                dd = [d for d in g.defs.get(l, []) if d[1] == "term"]
+                if len(dd) == 1:
+                    r = ("call", dd[0][0], dd[0][2])
+                    continue
+                return chain
+            if r[0] != "call":
+                return chain
+            t = r[2]
+            n = (M.callee_name(t) or "?").split("::")[-1]
+            chain.append(n)
+            if n == "get" and len(t["args"]) > 1:
+                c = const_str(g, t["args"][1])
+                if c:
+                    chain[-1] = "get(%s)" % c
+            if not t["args"]:
+                return chain
+            r = g.root_of(t["args"][0], through_named=True)
+        return chain
+    ins = [(bi, t) for bi, t in dc.calls() if (M.callee_name(t) or "").endswith("::insert") and "HashMap" in (M.callee_name(t) or "")]
+    gd = [(bi, t) for bi, t in dc.calls() if M.callee_name(t) == "lsp::get_diagnostics"]
+    res.floor("DOC-SYNC", "document store inserts in handle_did_change", len(ins), 1)
+    res.floor("DOC-SYNC", "get_diagnostics calls in handle_did_change", len(gd), 1)
+    for what, (bi, t), argi in [("stored text", x, 2) for x in ins] + [("checked text", x, 0) for x in gd]:
+        ch = provenance(dc, t["args"][argi])
+        want_text = "get(text)" in ch
+        i_text = ch.index("get(text)") if want_text else -1
+        after = ch[i_text + 1:] if want_text else ch
+        picks = [c for c in after if c in ("last", "first", "find_map", "find", "next", "nth", "index", "get", "rev", "max_by_key", "fold")]
+        ok = want_text and picks[:1] == ["last"] and "get(contentChanges)" in after
+        if ok:
+            res.ok("DOC-SYNC", "handle_did_change: %s = contentChanges.last().text" % what)
+        else:
+            res.bad("DOC-SYNC", "lsp::handle_did_change # %s # %s" % (what, ">".join(ch)[:80]),
+                    "the %s in handle_did_change is not `contentChanges.last().text` (provenance: %s): with batched changes the "
+                    "server keeps and checks an intermediate text, so its diagnostics differ from `garden check` on the final text"
+                    % (what, " <- ".join(ch)[:160]), dc.loc(t.get("fn_span")))
     # ---- PIPELINE-AGREE
     def pipeline(fn):
         g = P.require_fn(fn)
